@@ -430,3 +430,62 @@ R.contract(
     ],
     prop=["C18"],
 )
+
+# ================================================================================================ writing RETIRE_CONNECTION_ID
+
+# one RETIRE_CONNECTION_ID frame: either it is refused for lack of room (nothing registered, nothing written), or the
+# frame is in the packet AND its delivery handler (which re-queues the number after a loss) is registered on the packet
+R.contract(
+    "QuicConnection._write_retire_connection_id_frame",
+    requires=["builder._packet is not None", "0 <= sequence_number <= 4611686018427387903"],
+    assume_pre=["self._quic_logger is None or builder.quic_logger_frames is not None"],
+    let={"pkt": "some(builder._packet)"},
+    raises={"QuicPacketBuilderStop": None},
+    on_raise={"QuicPacketBuilderStop": ["len(pkt.delivery_handlers) == old(len(pkt.delivery_handlers))", "builder._buffer.g_pos == old(builder._buffer.g_pos)"]},
+    modifies=["builder._buffer.g_pos", "builder._buffer.g_mem", "QuicSentPacket.is_ack_eliciting[*]", "QuicSentPacket.in_flight[*]",
+              "QuicSentPacket.is_crypto_packet[*]", "QuicSentPacket.delivery_handlers[*]"],
+    ensures=[
+        "len(pkt.delivery_handlers) == old(len(pkt.delivery_handlers)) + 1",
+        "builder._buffer.g_pos > old(builder._buffer.g_pos)",
+        "pkt.is_ack_eliciting",
+        "builder._packet == old(builder._packet)",
+    ],
+    prop=["C18"],
+)
+
+# Block contract on the RETIRE_CONNECTION_ID loop of _write_application (located by the call it makes, whatever the shape
+# of the loop): "every abandoned ID is announced" - a queued sequence number leaves the queue only together with a frame
+# whose delivery handler is registered; when the packet is full (QuicPacketBuilderStop) the numbers not yet written are
+# all still queued, in order.
+R.contract(
+    "QuicConnection._write_application@retire_cids",
+    region={"anchor": "calls:_write_retire_connection_id_frame", "widen": "loop"},
+    params={"builder": "QuicPacketBuilder"},
+    assume_pre=["builder._packet is not None", "self._quic_logger is None or builder.quic_logger_frames is not None",
+                # sequence numbers in the queue are varints (they were parsed as such / are below _host/peer counters)
+                "forall(lambda m: implies(0 <= m < len(RQ(self)), 0 <= sel(RQ(self), m) <= 4611686018427387903))"],
+    let={"pkt": "some(builder._packet)", "n0": "len(RQ(self))", "h0": "len(some(builder._packet).delivery_handlers)"},
+    raises={"QuicPacketBuilderStop": None},
+    on_raise={"QuicPacketBuilderStop": [
+        "len(RQ(self)) + len(pkt.delivery_handlers) == n0 + h0",
+        "len(RQ(self)) <= n0",
+        "forall(lambda m: implies(0 <= m < len(RQ(self)), sel(RQ(self), m) == sel(old(RQ(self)), m + n0 - len(RQ(self)))))",
+    ]},
+    loops={0: dict(
+        invariant=[
+            "len(RQ(self)) + len(some(builder._packet).delivery_handlers) == n0 + h0",
+            "0 <= _i0 <= n0", "len(RQ(self)) == n0 - _i0",
+            "forall(lambda m: implies(0 <= m < len(RQ(self)), sel(RQ(self), m) == sel(old(RQ(self)), m + n0 - len(RQ(self)))))",
+            "builder._packet == old(builder._packet)",
+        ],
+        modifies=["self._retire_connection_ids", "builder._buffer.g_pos", "builder._buffer.g_mem", "QuicSentPacket.is_ack_eliciting[*]", "QuicSentPacket.in_flight[*]",
+                  "QuicSentPacket.is_crypto_packet[*]", "QuicSentPacket.delivery_handlers[*]"],
+    )},
+    ensures=[
+        # normal exit: the queue is empty and one handler was registered per number that was queued
+        "len(RQ(self)) == 0",
+        "len(pkt.delivery_handlers) == h0 + n0",
+        "peer_ids_same(self)",
+    ],
+    prop=["C18"],
+)
